@@ -10,6 +10,15 @@ T = {
  "C01": ("reference-model + algebraic-law monitors on 18 conversion/product/rotation routes",
          "Runtime monitoring: every generated (p,q,v) drives all public quaternion->matrix, product and vector-rotation routes of the real code; an independent Hamilton-product model and the group laws are the oracle. Held on N executions stratified over pure/real/axis-aligned/denormal/near-antipodal inputs; not a proof.",
          "NumPy arithmetic; vt/ref/quat.py reference model; inputs restricted to the generated regions", "5/C01"),
+ "C02": ("reference-model monitor: R (Rodrigues) -> 7 methods x 4 entry points of the real code -> harness q->R model, stratified over SO(3)",
+         "Runtime monitoring: rotation matrices are generated per region (four Shepperd pivot classes, negative trace, tiny / near-pi angles, exact half-turns, identity, isclose bands) and every method through every public entry point is executed; the returned quaternion must be real float64, unit, and reproduce R through an independent quaternion->matrix model (1e-12 for Shepperd/Bar-Itzhack everywhere, 1e-6 for the closed forms up to pi-1e-6).",
+         "NumPy; Rodrigues formula and refR of vt/ref/quat.py; closed-form methods are not judged above pi-1e-6 as the property states", "5/C02"),
+ "C09": ("algebraic-law monitor against an independent Hamilton product; scalar-last twin monitor",
+         "Runtime monitoring: triples of versors and non-normalised quaternions (norms over 4 decades, incl. both sides of the is_versor tolerance) are pushed through product/*/@/q_prod, conjugate, inverse, mult_L/mult_R and the order='S' twins of the real classes; laws are checked against vt/ref/quat.py. The non-versor inverse defect is pinned by the repository tests and recorded as a known finding keyed by its mechanism.",
+         "NumPy; reference Hamilton product; objects with order='S' passed as arguments are recorded, not judged", "5/C09"),
+ "C10": ("round-trip monitors with conditioning-aware tolerances; reference = elementary matrices, Rodrigues, exponential map",
+         "Runtime monitoring: rpy triples (incl. within 1e-6 of gimbal lock), axis-angle rotations (angles 0, 1e-9..pi-1e-6), exponents in [-3,3] and Euler sequences of length 1-3 (radians, degrees, angles down to 1e-9) are pushed through every public conversion of the real code and compared with independent models.",
+         "NumPy; arccos-based formulas (DCM.to_axisangle, Quaternion.logarithm) are granted their documented first-order accuracy; exp() of real quaternions is a test-pinned known finding", "5/C10"),
 }
 
 def main():
